@@ -114,6 +114,7 @@ def generate(rng, tier: str, index: int) -> dict:
                 'delay': rng.choice([0.0, 0.01, 0.3, 1.2]), 'race': rng.choice(['none', 'none', 'none', 'fin', 'rst']), 'arg': rng.randint(0, 9),
                 # the hold time the peer proposes on this connection (the negotiated one is the smaller, per session)
                 'spk_hold': rng.choice([None, None, 3, 6, 9, 90]),
+                'prelude_split': rng.choice([None, None, None, 1, 7, 16, 18]),
             }
         )  # fmt: skip
     return {
@@ -178,6 +179,10 @@ def injection(spec: dict, spk: Speaker, sess, plan) -> bytes | None:
         attrs = R.attribute(R.A_ORIGIN, b'\x00') + bytes([0x40, 2, 200, 2, 1])  # AS_PATH claims 200 bytes
         return R.build_update(attrs=attrs, nlri=bytes([24, 10, 1, 1]))
     if cls == 'update-withdrawn-overrun':
+        if a % 3:
+            # the withdrawn routes fill the body to the end, or leave a single byte: no room for the attribute length field
+            wd = bytes([24, 10, 1, 1]) * (1 + a % 4)
+            return R.message(R.UPDATE, struct.pack('!H', len(wd)) + wd + (b'' if a % 3 == 1 else b'\x00'))
         return R.message(R.UPDATE, struct.pack('!H', 300) + bytes([24, 10, 1, 1]) + b'\x00\x00')
     if cls == 'update-nlri-prefixlen':
         attrs = R.attribute(R.A_ORIGIN, b'\x00') + R.attribute(R.A_AS_PATH, R.enc_as_path([(2, [spk.asn])], True)) + R.attribute(R.A_NEXT_HOP, bytes([10, 0, 0, 2]))
@@ -246,7 +251,16 @@ def execute(plan: dict) -> dict:
             h.emit(f'peer {PEER} teardown {2 + spec.get("arg", 0) % 8}\n'.encode())
             return
         data = injection(spec, spk, sess, plan)
-        deliver(sess, data, spec)
+        if spec.get('prelude_split') and spec['state'] == 'established':
+            # a valid KEEPALIVE whose header arrives in two pieces further apart than the 0.1 s read poll, then the message under
+            # test in one piece: what was resumed for the first must not leak into the framing of the second
+            k = spec['prelude_split']
+            sess.send(R.keepalive(), cuts=[k], delays=[0.0, 0.25])
+            w.after(0.6, lambda: deliver(sess, data, spec) if sess.state != 'closed' else None)
+        else:
+            deliver(sess, data, spec)
+        if spec.get('prelude_split') and spec['state'] == 'established':
+            return  # the close races of the message under test are not combined with the delayed delivery
         if spec['race'] == 'fin':
             probes['raced'] += 1
             sess.close(delay=0.0005)
